@@ -53,9 +53,16 @@ package diagnostic
 //@        (and (= (len groupedConflicts) (+ (len (athead groupedConflicts)) 1)) (= (idx groupedConflicts (len (athead groupedConflicts))) c)))
 
 //@ -- rendering of a nil path, used as a function of the path (the grouping proof holds for any key function)
+//@ -- C13 (key function): the key IS the concatenation of the renderings of the nodes of the path, in order, each with its
+//@ -- full position (file name included) - two flows that print differently never share a group
 //@ func pathString
+//@ prop C13
 //@ pure
-//@ nobody
+//@ ensures empty-path-has-the-empty-key (=> (= (len nodes) 0) (= result ""))
+//@ loop 0 invariant empty-before-the-first-node (and (<= -1 rangeindex) (< rangeindex (len nodes)) (=> (= rangeindex -1) (= path "")))
+//@ loop 0 step one-rendering-per-node (= (calls "String") 1)
+//@ loop 0 step renders-this-node (= (deref (callarg "String" 0 0)) (idx nodes rangeindex))
+//@ loop 0 step appends-the-full-rendering-of-the-node (= path (strcat (athead path) (callres "String")))
 //@ func groupConflicts
 //@ loop 0 invariant only-processed-dropped (forall ((j Int)) (=> (mapin indicesToIgnore j) (and (<= 0 j) (<= j rangeindex))))
 
